@@ -258,7 +258,39 @@ def check_deciders(h: Harness):
         h.holds("BaseDecider.random_int", "out-of-bounds", ["prop_bounds", lo, hi, v],
                 f"BaseDecider.random_int() [default bounds] returned {v} (script {sc})", [lo, hi, sc])
     # dynamic SGE decider
-    genes = [0, 1, 2, 3, 7, 128, 1023, 1024]
+    # (creation draws genes in 0..1024, mutation rewrites a gene with a value in 0..sys.maxsize)
+    genes = [0, 1, 2, 3, 7, 128, 1023, 1024, 1025, 4096, 10**9 + 7, sys.maxsize - 1, sys.maxsize]
+    # the source handed to metahandlers during a dynamic-SGE mapping: bounded floats and the derived primitives
+    for gene in genes:
+        for lo, hi in [(0.0, 1.0), (-2.5, 2.5), (9.0, 10.0), (0.0, 0.0), (-1e6, 1e6)]:
+            geno = dsge.Genotype(ScriptedSource([]), {float: [gene]})
+            src = dsge.GenotypeBackedSource(dsge.DynamicSGEDecider(geno, g, max_depth=5))
+            v = call(h, "dsge", lambda: src.random_float(lo, hi))
+            h.seen(f"dsge-float:{gene}:{lo}:{hi}", nontrivial=lo < hi)
+            h.count("GenotypeBackedSource.random_float")
+            if isinstance(v, str):
+                h.fail("GenotypeBackedSource.random_float", "raises", f"random_float({lo},{hi}) with gene {gene} raised {v}", [gene, lo, hi])
+            elif not (isinstance(v, float) and lo <= v <= hi):
+                h.fail("GenotypeBackedSource.random_float", "out-of-bounds",
+                       f"the dynamic-SGE metahandler source returned random_float({lo}, {hi}) = {v!r} for gene {gene}", [gene, lo, hi])
+        for lo, hi in [(0, 0), (0, 1), (-3, 3), (1, 6)]:
+            geno = dsge.Genotype(ScriptedSource([]), {int: [gene, gene // 3, 5]})
+            src = dsge.GenotypeBackedSource(dsge.DynamicSGEDecider(geno, g, max_depth=5))
+            v = call(h, "dsge", lambda: src.randint(lo, hi))
+            if isinstance(v, str):
+                h.fail("GenotypeBackedSource.randint", "raises", f"randint({lo},{hi}) with gene {gene} raised {v}", [gene, lo, hi])
+                continue
+            h.holds("GenotypeBackedSource.randint", "out-of-bounds", ["prop_bounds", lo, hi, v],
+                    f"the dynamic-SGE metahandler source returned randint({lo},{hi}) = {v} for gene {gene}", [gene, lo, hi])
+            c = call(h, "dsge", lambda: src.choice(["p", "q", "r"]))
+            if c not in ("p", "q", "r"):
+                h.fail("GenotypeBackedSource.choice", "not-a-member", f"choice returned {c!r} for gene {gene}", [gene])
+            w = call(h, "dsge", lambda: src.choice_weighted([0, 1, 2], [0.0, 0.5, 0.5]))
+            if isinstance(w, str):
+                h.fail("GenotypeBackedSource.choice_weighted", "raises", f"choice_weighted raised {w} for gene {gene}", [gene])
+            else:
+                h.holds("RandomSource.choice_weighted", "zero-weight-option-returned", ["prop_weighted", [0, 1, 1], w],
+                        f"GenotypeBackedSource.choice_weighted(weights=[0, .5, .5]) returned {w} for gene {gene}", [gene])
     for lo, hi in [(0, 0), (5, 5), (0, 1), (0, 10), (-3, 3), (32, 128), (-sys.maxsize, sys.maxsize)]:
         for gene in genes + ([hi - lo] if hi - lo < 2000 else []):
             geno = dsge.Genotype(ScriptedSource([]), {int: [gene]})
